@@ -41,6 +41,7 @@ fn checks() -> Vec<Check> {
         sim::c06::check(),
         sim::c07::check(),
         sim::c10::check(),
+        sim::c11::check(),
         sim::c20::check(),
         web::c15::check(),
         web::c17::check(),
